@@ -54,6 +54,15 @@ MUTANTS = [
      lambda f, rc: rc == 0 and changed(f, 'constructFilename') and others_same(f, 'constructFilename')),      # the regenerated Funcs.lean differs: checked by the Lean theorem C11.constructFilename_tied
     # --- tie by proof (tools/extract/funcs.go): the regenerated transliteration must change, or the
     # extractor must refuse a construct outside its subset
+    ('validateJSON takes a json.RawMessage for encoded text (extra clause of the type switch)', 'snaps/matchJSON.go',
+     '\tdefault:\n\t\treturn json.Marshal(input)\n', '\tcase json.RawMessage:\n\t\treturn j, nil\n\tdefault:\n\t\treturn json.Marshal(input)\n',
+     lambda f, rc: rc == 0 and 'validateJSON' in str((f.get('failed') or {})) or (f.get('funcs', {}).get('validateJSON') != BASE['funcs']['validateJSON'])),
+    ('getPrettyJSONOptions hands out the shared defaults after writing the width into them', 'snaps/snapshot.go',
+     '\treturn &pretty.Options{\n\t\tWidth:    j.Width,\n', '\tdefaultPrettyJSONOptions.Width = j.Width\n\treturn &pretty.Options{\n\t\tWidth:    j.Width,\n',
+     lambda f, rc: f.get('funcs', {}).get('JSONConfig.getPrettyJSONOptions') != BASE['funcs']['JSONConfig.getPrettyJSONOptions']),
+    ('validateYAML stores the re-encoded document instead of the bytes it was given', 'snaps/matchYAML.go',
+     '\t\treturn y, nil\n', '\t\ty, _ = yaml.Marshal(out)\n\t\treturn y, nil\n',
+     lambda f, rc: f.get('funcs', {}).get('validateYAML') != BASE['funcs']['validateYAML']),
     ('snapshotPath joins a relative Dir even under -trimpath', 'snaps/snapshot.go',
      '\tif !filepath.IsAbs(dir) && !isTrimBathBuild {\n', '\tif !filepath.IsAbs(dir) {\n',
      lambda f, rc: rc == 0 and changed(f, 'snapshotPath', 'if (!(GoSnaps.fpIsAbs dir)) then') and others_same(f, 'snapshotPath')),
